@@ -3,5 +3,5 @@ CONSTANTS
   Ids = {1}
   Fuel = 3
 SPECIFICATION Spec
-INVARIANTS Emit
+INVARIANTS LabelsConsistent NormSane EqSane Emit
 CHECK_DEADLOCK FALSE
